@@ -267,6 +267,22 @@ fn record_frame(rec: &mut Recorder, line: &str, script: &Script, o: FrameObs, fa
     rec.case(base_line(line), o.line, orc, nontrivial);
 }
 
+/// Index (among accepted messages) of the first Termination message processed after an accepted
+/// Initiation: where a tree in which Termination ends the session (C07's repair) leaves the loop.
+fn termination_index(script: &Script, fatal: &dyn Fn(ErrorKind) -> bool) -> Option<u64> {
+    let w = walk(script, fatal);
+    let mut accepted = 0u64;
+    let mut active = false;
+    for f in &w.frames {
+        if parser_verdict(f) != '1' { continue; }
+        match f[5] { 4 => active = true, 5 if active => return Some(accepted), _ => {} }
+        accepted += 1;
+    }
+    None
+}
+
+static TERM_ENDS: std::sync::atomic::AtomicBool = std::sync::atomic::AtomicBool::new(false);
+
 fn record_sess(rec: &mut Recorder, line: &str, script: &Script, o: SessObs, fatal: &dyn Fn(ErrorKind) -> bool) {
     let (toks, nframes, short) = valid_tokens(script, fatal);
     let nfaults = script.iter().filter(|i| matches!(i, Item::Fault(k) if !fatal(*k))).count();
@@ -278,6 +294,9 @@ fn record_sess(rec: &mut Recorder, line: &str, script: &Script, o: SessObs, fata
     if o.end == "panic" && panic_file(&o.site) != "bmp_tcp_in/io.rs" && !toks.contains('p') && o.msgs > 0 {
         line.push_str(&format!("|crash={}", o.msgs - 1));
         rec.bump("sess.handler-crash");
+    }
+    if TERM_ENDS.load(SeqCst) {
+        if let Some(k) = termination_index(script, fatal) { line.push_str(&format!("|abort={}", k)); }
     }
     rec.case(line, o.line, orc, nframes + nfaults >= 1);
 }
@@ -346,6 +365,14 @@ fn main() {
         }
     }
     rec.variant("minlen", &minlen.to_string());
+    // does a Termination message end the session on this tree (C07's defect site)? Initiation,
+    // Termination, Initiation: 3 messages counted as written, 2 when the loop is left at Termination
+    {
+        let s: Script = vec![Item::Data(initiation()), Item::Data(termination()), Item::Data(initiation())];
+        let o = rt.block_on(run_session(s, 1));
+        TERM_ENDS.store(o.msgs < 3, SeqCst);
+        rec.extra.insert("termination_ends_session".into(), serde_json::json!(o.msgs < 3));
+    }
 
     // 1. the is_fatal table
     for (name, _) in NAMED_KINDS.iter().chain(UNLISTED_KINDS.iter()) { run_case(&mut rec, &format!("fatal|{}", name), 1); }
